@@ -30,7 +30,7 @@ def run(tier):
         raise Broken("design model MC_Paging fails: %s\n%s" % (d0.violated or d0.error, d0.trace_text[:2000]))
     drv = vlib.build_harness()
     maxp = 5 if tier == "quick" else 12
-    gts = ["polygon", "multipolygon", "point", "linestring", "multipoint", "multilinestring"]
+    gts = ["polygon", "multipolygon", "point", "linestring", "multipoint", "multilinestring", "geometrycollection"]
     cases = []
     k = 0
     for p in range(1, maxp + 1):
